@@ -19,26 +19,26 @@ tvars == <<vars, tid, firstBad>>
 
 TInit == /\ tid \in 1..Len(Traces)
          /\ LET s == Traces[tid][1]
-            IN /\ st = StInit(s.init)
-               /\ obs = ObsInit(s.W, s.init)
+            IN /\ st = StInit(s.init, s.hasEcho)
+               /\ obs = ObsInit(s.W, s.init, s.hasEcho)
          /\ len = 1 /\ act = NoAct /\ hist = << >> /\ firstBad = {}
 
 TNext ==
   /\ len < Len(Traces[tid])
   /\ LET raw == Traces[tid][len + 1]
-         e   == [n |-> raw.n, auth |-> raw.auth, echo |-> raw.echo, res |-> raw.res,
+         e   == [k |-> raw.k, n |-> raw.n, auth |-> raw.auth, echo |-> raw.echo, res |-> raw.res,
                  idx |-> raw.idx, seen |-> ToSet(raw.seen)]
-         r   == Step(st, obs.W, e.n, e.auth, e.echo)
+         r   == IF e.k = "resp" THEN StepResp(st, e.n) ELSE Step(st, obs.W, e.n, e.auth, e.echo)
          differs == \/ r.res # e.res
                     \/ e.idx # -1 /\ (e.idx # ProjIdx(r.st) \/ e.seen # ProjSeen(r.st))
          o1  == ObsArrive(obs, e)
          o2  == IF differs THEN Flag(o1, {"DRIFT_model"}) ELSE o1
      IN /\ obs' = o2
         /\ st' = IF e.idx = -1 THEN (IF differs /\ e.res = "acc" /\ ~st.init
-                                       THEN [init |-> TRUE, index |-> e.n, seen |-> {e.n}]
+                                       THEN [st EXCEPT !.init = TRUE, !.index = e.n, !.seen = {e.n}]
                                        ELSE r.st)
-                 ELSE IF e.idx = -2 THEN StInit(FALSE)
-                 ELSE [init |-> TRUE, index |-> e.idx, seen |-> e.seen]
+                 ELSE IF e.idx = -2 THEN StInit(FALSE, st.echo)
+                 ELSE [st EXCEPT !.init = TRUE, !.index = e.idx, !.seen = e.seen]
         /\ firstBad' = firstBad \cup {<<c, len>> : c \in o2.bad \ obs.bad}
   /\ len' = len + 1
   /\ UNCHANGED <<act, hist, tid>>
